@@ -683,9 +683,11 @@ func c07RunRow(r *vlib.Run, row *c07Row, mem, svc int, digits []int) {
 			_, t := c07Exec(row, mem, svc, tr)
 			r.Transition()
 			same := !t.Panicked && t.Exit == o.Exit && len(hcDiff(t.State, o.State)) == 0 && hcDiffMem(t.Mem, o.Mem).Bytes == 0
-			for _, i := range row.Res {
-				if t.Regs[i] != o.Regs[i] {
-					same = false
+			if o.Exit == ExitContinue { // on a panic exit the registers are the (different) inputs
+				for _, i := range row.Res {
+					if t.Regs[i] != o.Regs[i] {
+						same = false
+					}
 				}
 			}
 			if !same {
